@@ -69,7 +69,15 @@ def gen_case(rng, depth, small=False):
     g = machgen.Gen(rng, max_depth=depth)
     m = g.machine()
     case = {"machine": m, "input": machgen.gen_input(rng), "plans": g.fns}
-    if small:
+    if small and isinstance(case["input"], dict) and rng.random() < 0.4:
+        # padded input: 450-900 characters, the limit 345.. above it but below twice its size.  A state that copies
+        # its input into its result (a worker echoes its payload) is refused, while the Error Output — whose Cause
+        # text is about 300 characters long — placed into the raw input still fits: the catcher's transition goes
+        # through and what it carries is compared
+        case["input"]["pad"] = "x" * rng.randint(400, 800)
+        n = len(json.dumps(case["input"]))
+        case["max_data"] = n + rng.randint(345, n - 20)
+    elif small:
         case["max_data"] = pick_limit(rng, case["input"], run_one(case).sizes)
     return case
 
@@ -105,6 +113,28 @@ def refusal_lines(machine, refusals):
     return out
 
 
+def render_lines(r, cap=8):
+    """`render` is meant to be `json.dumps`: for (up to `cap` of) the data the engine's size checks measured in this
+    run — outputs at transitions, reply texts — ask the model for `(render j).length`"""
+    seen, out = set(), []
+    for text, n in r.measured:
+        if text not in seen and len(out) < cap:
+            seen.add(text)
+            out.append(("interp\trenderlen\t" + text, n))
+    return out
+
+
+def check_render(chk, asked, answers):
+    """compare; a difference is a defect of the model's `render` (or of the harness' JSON reader)"""
+    for (line, n), a in zip(asked, answers):
+        chk.dist("smalllimit.render_length.compared")
+        parts = a.split("\t")
+        if parts[0] != "ok" or int(parts[1]) != n:
+            chk.report("model-differs-from-impl", {"kind": "render-length", "json": line.split("\t", 2)[2]},
+                       impl={"len(json.dumps(x))": n}, model={"(render x).length": a},
+                       law="the model measures data exactly as the code does: (render x).length = len(json.dumps(x))")
+
+
 def replies_over(r, limit):
     """worker replies whose text is longer than the limit (`task_dispatcher` turns them into States.DataLimitExceeded)"""
     return sum(1 for ents in r.plans.table.values() for (_p, reps) in ents.values() for d in reps
@@ -137,7 +167,7 @@ def run(chk):
         cases.append(c)
     for i in range(n):
         cases.append(gen_case(chk.rng, chk.rng.choice([0, 1, depth]), small=chk.rng.random() < SMALL_SHARE))
-    extra, spans = [], []
+    extra, spans, asked = [], [], []
     for c in cases:
         r = run_one(c)
         results.append(r)
@@ -145,8 +175,11 @@ def run(chk):
         rl = refusal_lines(c["machine"], r.refusals)
         spans.append((len(extra), len(extra) + len(rl)))
         extra.extend(rl)
-    answers = common.driver(lines + extra, shards=8)
-    decided = answers[len(lines):]
+        if c.get("max_data") is not None:
+            asked.extend(render_lines(r))
+    answers = common.driver(lines + extra + [x[0] for x in asked], shards=8)
+    decided = answers[len(lines):len(lines) + len(extra)]
+    check_render(chk, asked, answers[len(lines) + len(extra):])
     for c, r, a, (d0, d1) in zip(cases, results, answers, spans):
         f = machgen.features(c["machine"])
         key = cj([c["machine"], c["input"], c["plans"], c.get("max_data")])
